@@ -283,7 +283,7 @@ def v850_cccc(obj, reg2, cond):
 @ispec("32<[ 000000010100010 0 0000011111100000 ]", mnemonic="CTRET")
 @ispec("32<[ 000000010110000 0 0000011111100000 ]", mnemonic="DI")
 @ispec("32<[ 000000010110000 0 1000011111100000 ]", mnemonic="EI")
-@ispec("32<[ 000001111110000 0 0000000101001000 ]", mnemonic="EIRET")
+@ispec("32<[ 000000010100100 0 0000011111100000 ]", mnemonic="EIRET")
 @ispec("32<[ 000000010100101 0 0000011111100000 ]", mnemonic="FERET")
 @ispec("32<[ 000000010010000 0 0000011111100000 ]", mnemonic="HALT")
 @ispec("32<[ 000000010100000 0 0000011111100000 ]", mnemonic="RETI")
